@@ -93,6 +93,9 @@ Init == \E n \in 1 .. MaxFiles, P \in PieceLens :
             /\ st = InitSt(recs, disk, P)
 Next == st.pc # "done" /\ st' = Step(st)
 Spec == Init /\ [][Next]_st
+\* liveness: the iteration ends for every input (weak fairness = the caller keeps calling next())
+FairSpec == Spec /\ WF_st(Next)
+Terminates == <>(st.pc = "done")
 
 Kinds(s) == [f \in DOMAIN s.recs |-> "f"]
 StreamCorrect == st.pc = "done" => st.out = V2Verdicts(st.recs, st.disk, st.P)
